@@ -209,6 +209,30 @@ func vBuild(v vView, r *rand.Rand) (*config.Pool, *v1.Service, []discovery.Endpo
 	if v.Local {
 		svc.Spec.ExternalTrafficPolicy = v1.ServiceExternalTrafficPolicyTypeLocal
 	}
+	// Service fields the election must not read ("identical for every Service
+	// using that address"): varied freely, the model does not see them
+	switch r.Intn(3) {
+	case 1:
+		p := v1.ServiceInternalTrafficPolicyLocal
+		svc.Spec.InternalTrafficPolicy = &p
+	case 2:
+		p := v1.ServiceInternalTrafficPolicyCluster
+		svc.Spec.InternalTrafficPolicy = &p
+	}
+	if r.Intn(2) == 0 {
+		svc.Spec.PublishNotReadyAddresses = true
+	}
+	if r.Intn(2) == 0 {
+		svc.Spec.SessionAffinity = v1.ServiceAffinityClientIP
+	}
+	if r.Intn(2) == 0 {
+		svc.Spec.Selector = map[string]string{"app": fmt.Sprintf("a%d", r.Intn(3))}
+		svc.Labels = map[string]string{"tier": fmt.Sprintf("t%d", r.Intn(3))}
+	}
+	if r.Intn(2) == 0 {
+		svc.Spec.HealthCheckNodePort = int32(30000 + r.Intn(100))
+		svc.Spec.Ports = []v1.ServicePort{{Port: int32(80 + r.Intn(3)), Protocol: v1.ProtocolTCP}}
+	}
 	var ips []net.IP
 	for _, s := range v.IPs {
 		ips = append(ips, net.ParseIP(s))
